@@ -1465,15 +1465,15 @@ func (a Shards) IteratorCost(measurement string, opt query.IteratorOptions) (que
 	limit := limiter.NewFixed(runtime.GOMAXPROCS(0))
 	var wg sync.WaitGroup
 	for _, sh := range a {
-		limit.Take()
-		wg.Add(1)
-
 		mu.RLock()
 		if costerr != nil {
 			mu.RUnlock()
 			break
 		}
 		mu.RUnlock()
+
+		limit.Take()
+		wg.Add(1)
 
 		go func(sh *Shard) {
 			defer limit.Release()
